@@ -48,10 +48,10 @@ def bphpF (m n : Nat) : Formula :=
    ++ (List.range n).flatMap (fun y => (pairs (idx m)).map (fun x =>
         Con.clause (forbidLits 1 k x.1 y ++ forbidLits 1 k x.2 y)))⟩
 
-/-- `non_negative_int` twice, then `BinaryMappingVariables.__init__`: "n and m must be positive" -/
+/-- `non_negative_int` twice; `BinaryMappingVariables.__init__` accepts an empty domain or range
+(since the fix of D42: zero bits are enough for at most one value) -/
 def bphp (pigeons holes : Int) : Except Err Formula :=
   if pigeons < 0 ∨ holes < 0 then .error .valueError
-  else if holes < 1 ∨ pigeons < 1 then .error .valueError
   else .ok (bphpF pigeons.toNat holes.toNat)
 
 /-! ### RelativizedPigeonholePrinciple(pigeons, resting_places, holes) -/
